@@ -590,8 +590,8 @@ def check(rep):
                            'EDESTADDRREQ) and transmits nothing, i.e. names no destination: the only address C20_no_misroute allows besides a remembered asker is the zero '
                            'address of length 0 of a never-written ring slot, reachable for id 0 (also: replies shorter than '
                            '12 bytes) before 16 queries were forwarded')
-    rep.assumptions.append('askers are IPv4 (sockaddr_in): forward_query rewrites q->from in place as a sockaddr_in to '
-                           '127.0.0.1:bind_port; the model abstracts the destination as "local DNS port"')
+    rep.assumptions.append('the model abstracts the forward destination as "local DNS port"; askers in the generated histories are IPv4, an IPv6 asker is '
+                           'covered by a fixed probe case judged by the implementation-level oracle only')
     rep.assumptions.append('ids are 16-bit and struct copies are memcpy of the whole struct fw_query (x86-64, gcc)')
     rep.cov['rule'] = ('corpus first; tests/fw_query.c scenario; ring: EVERY sequence over {put,get} x ids {0,1,2,3} of depth %d from '
                        'fw_query_init, and every continuation of depth %d of rings pre-filled with 12..18 and 28..34 puts '
@@ -649,13 +649,21 @@ def check(rep):
                 rep.add_violation(key, why, dict(kind='input', driver='srv', case=concrete, expected=why,
                                                  observed=shrink_case(o)))
                 break
-        # IPv6 asker: observation only (outside the IPv4 quantifier of this check)
+        # IPv6 asker (D12): the forward must reach the local DNS port and the reply the asker
         pp = os.path.join(ctx.work, 'v6probe.cases')
         open(pp, 'w').write(V6_PROBE + '\n')
         rc6, o6, _ = vlib.run_cases(ctx.exe['srv'], pp)
         if o6:
-            rep.notes.append('observation (IPv6 asker fd00::9, not part of the verdict): forward_query result %r, reply result %r' % (
-                tuple(x[:120] for x in o6[0].split(';'))))
+            parts = o6[0].split(';')
+            rep.notes.append('IPv6 asker fd00::9: forward_query result %r, reply result %r' % (tuple(x[:120] for x in parts)))
+            want_addr = '0a001092' + '00000000' + 'fd' + '00' * 14 + '09'          # AF_INET6, port 4242, flowinfo 0, fd00::9
+            if not parts[0].startswith('L|'):
+                rep.add_violation('forward_query:ipv6-asker', 'a non-tunnel query from an IPv6 asker is not forwarded to 127.0.0.1:<bind port> (forward_query '
+                                  'must build an IPv4 destination of its own): sendto saw %r' % parts[0][:160],
+                                  dict(kind='input', driver='srv', case=V6_PROBE, expected='L|<the query datagram>', observed=parts[0][:300]))
+            elif len(parts) < 2 or not (parts[1].startswith('C|') and want_addr in parts[1]):
+                rep.add_violation('tunnel_bind:ipv6-asker', 'the reply to a query forwarded for an IPv6 asker does not go back to that asker: %r' % (parts[1][:160] if len(parts) > 1 else ''),
+                                  dict(kind='input', driver='srv', case=V6_PROBE, expected='C|..|%s..|<reply>' % want_addr, observed=(parts[1][:300] if len(parts) > 1 else '')))
         if 'srv' in ctx.san:
             sub = [c for c in cases if not c.startswith('RX')] + [c for c in cases if c.startswith('RX')][::7]
             rc, sl, err = vlib.parallel_run_cases(ctx.san['srv'], sub, ctx.work, 'san')
